@@ -32,11 +32,18 @@ struct NodeRef {
     Loc loc;
     bool operator==(const NodeRef& o) const { return ref == o.ref && loc == o.loc; }
 };
+struct Obj;
 struct Member {
     int type = 0;  // 0 node 1 way 2 relation
     int64_t ref = 0;
     std::string role;
-    bool operator==(const Member& o) const { return type == o.type && ref == o.ref && role == o.role; }
+    std::vector<Obj> full;  // 0 or 1 element: embedded full member object
+    bool operator==(const Member& o) const;
+};
+struct Ring {
+    bool outer = true;
+    std::vector<NodeRef> refs;
+    bool operator==(const Ring& o) const { return outer == o.outer && refs == o.refs; }
 };
 struct Comment {
     uint32_t date = 0;
@@ -45,7 +52,7 @@ struct Comment {
     bool operator==(const Comment& o) const { return date == o.date && uid == o.uid && user == o.user && text == o.text; }
 };
 
-enum Type { NODE = 0, WAY = 1, RELATION = 2, CHANGESET = 3 };
+enum Type { NODE = 0, WAY = 1, RELATION = 2, CHANGESET = 3, AREA = 4 };
 
 struct Obj {
     int type = NODE;
@@ -60,6 +67,7 @@ struct Obj {
     Loc loc;                      // node
     std::vector<NodeRef> refs;    // way
     std::vector<Member> members;  // relation
+    std::vector<Ring> rings;      // area (buffer order: outer ring followed by its inner rings)
     // changeset
     uint32_t created = 0, closed = 0, num_changes = 0, num_comments = 0;
     Loc bl, tr;
@@ -67,11 +75,13 @@ struct Obj {
 
     bool operator==(const Obj& o) const {
         return type == o.type && id == o.id && version == o.version && visible == o.visible && ts == o.ts && cs == o.cs && uid == o.uid && user == o.user &&
-               tags == o.tags && loc == o.loc && refs == o.refs && members == o.members && created == o.created && closed == o.closed &&
+               tags == o.tags && loc == o.loc && refs == o.refs && members == o.members && rings == o.rings && created == o.created && closed == o.closed &&
                num_changes == o.num_changes && num_comments == o.num_comments && bl == o.bl && tr == o.tr && comments == o.comments;
     }
     bool operator!=(const Obj& o) const { return !(*this == o); }
 };
+
+inline bool Member::operator==(const Member& o) const { return type == o.type && ref == o.ref && role == o.role && full == o.full; }
 
 inline std::string esc(const std::string& s) {
     std::string o;
@@ -97,7 +107,7 @@ inline std::string show_loc(const Loc& l) {
 }
 
 inline std::string show(const Obj& o, bool full = false) {
-    static const char* tn[] = {"node", "way", "relation", "changeset"};
+    static const char* tn[] = {"node", "way", "relation", "changeset", "area"};
     std::string s = std::string{tn[o.type]} + " id=" + std::to_string(o.id);
     if (o.type != CHANGESET) {
         s += " v=" + std::to_string(o.version) + " vis=" + (o.visible ? "1" : "0") + " ts=" + std::to_string(o.ts) + " cs=" + std::to_string(o.cs);
@@ -116,7 +126,18 @@ inline std::string show(const Obj& o, bool full = false) {
     }
     if (o.type == RELATION) {
         s += " members[" + std::to_string(o.members.size()) + "]";
-        for (size_t i = 0; i < o.members.size() && i < lim; ++i) s += std::string{" "} + "nwr"[o.members[i].type] + std::to_string(o.members[i].ref) + ":" + brief(o.members[i].role);
+        for (size_t i = 0; i < o.members.size() && i < lim; ++i) {
+            s += std::string{" "} + "nwr"[o.members[i].type] + std::to_string(o.members[i].ref) + ":" + brief(o.members[i].role);
+            if (!o.members[i].full.empty()) s += "{" + show(o.members[i].full[0], full) + "}";
+        }
+    }
+    if (o.type == AREA) {
+        s += " rings[" + std::to_string(o.rings.size()) + "]";
+        for (size_t i = 0; i < o.rings.size() && i < lim; ++i) {
+            s += o.rings[i].outer ? " outer(" : " inner(";
+            for (size_t k = 0; k < o.rings[i].refs.size() && k < lim; ++k) s += (k ? " " : "") + std::to_string(o.rings[i].refs[k].ref) + "@" + show_loc(o.rings[i].refs[k].loc);
+            s += o.rings[i].refs.size() > lim ? " ..)" : ")";
+        }
     }
     if (o.type == CHANGESET) {
         s += " comments[" + std::to_string(o.comments.size()) + "]";
@@ -150,6 +171,7 @@ inline std::string diff(const Obj& a, const Obj& b) {
         if (!(a.members[i] == b.members[i]))
             return "member #" + std::to_string(i) + " " + std::to_string(a.members[i].type) + "/" + std::to_string(a.members[i].ref) + "/" + brief(a.members[i].role) + " vs " +
                    std::to_string(b.members[i].type) + "/" + std::to_string(b.members[i].ref) + "/" + brief(b.members[i].role);
+    if (!(a.rings == b.rings)) return "rings differ (" + std::to_string(a.rings.size()) + " vs " + std::to_string(b.rings.size()) + ")";
     if (a.created != b.created) return "created_at " + std::to_string(a.created) + " vs " + std::to_string(b.created);
     if (a.closed != b.closed) return "closed_at " + std::to_string(a.closed) + " vs " + std::to_string(b.closed);
     if (a.num_changes != b.num_changes) return "num_changes " + std::to_string(a.num_changes) + " vs " + std::to_string(b.num_changes);
@@ -183,6 +205,8 @@ inline void add_tags(osmium::memory::Buffer& buf, B& parent, const Obj& o) {
     for (const auto& t : o.tags) tb.add_tag(t.k.data(), t.k.size(), t.v.data(), t.v.size());
 }
 
+inline void add_to_buffer(osmium::memory::Buffer& buf, const Obj& o);
+
 inline void add_to_buffer(osmium::memory::Buffer& buf, const Obj& o) {
     using namespace osmium::builder;
     switch (o.type) {
@@ -208,9 +232,33 @@ inline void add_to_buffer(osmium::memory::Buffer& buf, const Obj& o) {
             set_common(b, o);
             if (!o.members.empty()) {
                 RelationMemberListBuilder m{buf, &b};
-                for (const auto& x : o.members) m.add_member(member_type(x.type), x.ref, x.role.data(), x.role.size());
+                for (const auto& x : o.members) {
+                    if (x.full.empty()) {
+                        m.add_member(member_type(x.type), x.ref, x.role.data(), x.role.size());
+                    } else {
+                        // the full member object has to exist somewhere else while it is copied in
+                        osmium::memory::Buffer tmp{256, osmium::memory::Buffer::auto_grow::yes};
+                        add_to_buffer(tmp, x.full[0]);
+                        m.add_member(member_type(x.type), x.ref, x.role.data(), x.role.size(), &tmp.get<osmium::OSMObject>(0));
+                    }
+                }
             }
             add_tags(buf, b, o);
+            break;
+        }
+        case AREA: {
+            AreaBuilder b{buf};
+            set_common(b, o);
+            add_tags(buf, b, o);
+            for (const auto& r : o.rings) {
+                if (r.outer) {
+                    OuterRingBuilder rb{buf, &b};
+                    for (const auto& n : r.refs) rb.add_node_ref(osmium::NodeRef{n.ref, to_location(n.loc)});
+                } else {
+                    InnerRingBuilder rb{buf, &b};
+                    for (const auto& n : r.refs) rb.add_node_ref(osmium::NodeRef{n.ref, to_location(n.loc)});
+                }
+            }
             break;
         }
         default: {
@@ -242,9 +290,10 @@ inline Obj from_entity(const osmium::OSMEntity& e) {
     switch (e.type()) {
         case osmium::item_type::node:
         case osmium::item_type::way:
-        case osmium::item_type::relation: {
+        case osmium::item_type::relation:
+        case osmium::item_type::area: {
             const auto& ob = static_cast<const osmium::OSMObject&>(e);
-            o.type = e.type() == osmium::item_type::node ? NODE : e.type() == osmium::item_type::way ? WAY : RELATION;
+            o.type = e.type() == osmium::item_type::node ? NODE : e.type() == osmium::item_type::way ? WAY : e.type() == osmium::item_type::relation ? RELATION : AREA;
             o.id = ob.id();
             o.version = ob.version();
             o.visible = ob.visible();
@@ -260,7 +309,22 @@ inline Obj from_entity(const osmium::OSMEntity& e) {
             if (o.type == RELATION) {
                 for (const auto& m : static_cast<const osmium::Relation&>(e).members()) {
                     int t = m.type() == osmium::item_type::node ? 0 : m.type() == osmium::item_type::way ? 1 : m.type() == osmium::item_type::relation ? 2 : 9;
-                    o.members.push_back(Member{t, m.ref(), m.role()});
+                    Member mm;
+                    mm.type = t;
+                    mm.ref = m.ref();
+                    mm.role = m.role();
+                    if (m.full_member()) mm.full.push_back(from_entity(m.get_object()));
+                    o.members.push_back(mm);
+                }
+            }
+            if (o.type == AREA) {
+                for (const auto& item : ob) {
+                    if (item.type() == osmium::item_type::outer_ring || item.type() == osmium::item_type::inner_ring) {
+                        Ring r;
+                        r.outer = item.type() == osmium::item_type::outer_ring;
+                        for (const auto& nr : static_cast<const osmium::NodeRefList&>(item)) r.refs.push_back(NodeRef{nr.ref(), from_location(nr.location())});
+                        o.rings.push_back(r);
+                    }
                 }
             }
             break;
